@@ -994,8 +994,12 @@ def overlap_checks(ctx, a, b, label, bound=True):
                                        'intersection is reported', 'ab': vals['ab'], 'ba': vals['ba'],
                                'footprints_sr': [area_of(a), area_of(b)]})
         return None
-    if abs(vals['ab'] - vals['ba']) > AREA_RTOL * m + AREA_ATOL:
-        ctx.oracle_fail(case, {'what': 'intersection_area is not symmetric', 'ab': vals['ab'], 'ba': vals['ba']})
+    # the two orders are two separate computations of spherical_geometry, whose areas are reproducible only to about
+    # 1e-5 of the footprints involved (finding F21): the absolute floor scales with the smaller footprint
+    sym_floor = AREA_ATOL + 1e-4 * min(area_of(a), area_of(b))
+    if abs(vals['ab'] - vals['ba']) > AREA_RTOL * m + sym_floor:
+        ctx.oracle_fail(case, {'what': 'intersection_area is not symmetric', 'ab': vals['ab'], 'ba': vals['ba'],
+                               'footprints_sr': [area_of(a), area_of(b)]})
     if bound:
         for nm, o in (('a', a), ('b', b)):
             ar = area_of(o)
